@@ -15,6 +15,7 @@ import (
 	"syscall"
 	"time"
 	"unsafe"
+	"verif/shim/vclock"
 
 	"verif/shim/vsched"
 )
@@ -33,24 +34,29 @@ func (a addr) String() string  { return a.s }
 
 // PipeConn is one end of an in-memory duplex connection.
 type PipeConn struct {
-	Name     string
-	rd, wr   *half
-	closed   bool
-	ClosedBy string // name of the thread that called Close
-	Stream   bool   // true: a Read may return bytes of several writes (TCP); false: one write per Read (datagram-like)
-	NoEOF    bool   // datagram sockets: the peer going away is not observable (no EOF)
-	PostRead bool   // a scheduling point lies between the return of a Read and the caller's next step
-	MaxDatagram int // > 0: a Write of more bytes fails with EMSGSIZE (UDP: 65507)
-	Window   int    // > 0: a Write blocks while that many bytes written by this end are still unread by the peer (a peer that stopped reading, buffers full)
-	timedOut bool
-	timer    *vsched.Timer
-	wTimedOut bool
-	wtimer   *vsched.Timer
-	Written  []byte // every byte this end wrote
-	Writes   []int  // size of each Write call
-	Reads    int
-	local    addr
-	remote   addr
+	Name        string
+	rd, wr      *half
+	closed      bool
+	ClosedBy    string // name of the thread that called Close
+	Stream      bool   // true: a Read may return bytes of several writes (TCP); false: one write per Read (datagram-like)
+	NoEOF       bool   // datagram sockets: the peer going away is not observable (no EOF)
+	PostRead    bool   // a scheduling point lies between the return of a Read and the caller's next step
+	MaxDatagram int    // > 0: a Write of more bytes fails with EMSGSIZE (UDP: 65507)
+	Window      int    // > 0: a Write blocks while that many bytes written by this end are still unread by the peer (a peer that stopped reading, buffers full)
+	// ClockDeadlines: the code that sets deadlines on this connection takes its time from the harness clock, so a
+	// deadline that lies in the past of that clock when it is set has expired: reads and writes fail at once, as
+	// on a real socket (without it a deadline only fires when nothing else can move)
+	ClockDeadlines bool
+	rPast, wPast   bool
+	timedOut       bool
+	timer          *vsched.Timer
+	wTimedOut      bool
+	wtimer         *vsched.Timer
+	Written        []byte // every byte this end wrote
+	Writes         []int  // size of each Write call
+	Reads          int
+	local          addr
+	remote         addr
 }
 
 // NewPipe creates a connected pair. Names are used in scheduling-point
@@ -79,6 +85,10 @@ func (c *PipeConn) readable() bool {
 //
 //go:norace
 func (c *PipeConn) Read(p []byte) (int, error) {
+	if c.rPast && !c.closed {
+		vsched.Point("read "+c.Name, always)
+		return 0, os.ErrDeadlineExceeded
+	}
 	vsched.Point("read "+c.Name, c.readable)
 	c.Reads++
 	if c.closed {
@@ -147,6 +157,9 @@ func (c *PipeConn) Write(p []byte) (int, error) {
 	}
 	if !vsched.Active() {
 		return 0, net.ErrClosed
+	}
+	if c.wPast {
+		return 0, os.ErrDeadlineExceeded
 	}
 	if c.Window > 0 && c.wTimedOut && c.pendingOut() >= c.Window {
 		return 0, os.ErrDeadlineExceeded
@@ -270,6 +283,7 @@ func (c *PipeConn) SetReadDeadline(t time.Time) error {
 	c.timer.Cancel()
 	c.timer = nil
 	c.timedOut = false
+	c.rPast = c.ClockDeadlines && !t.IsZero() && t.Before(vclock.Now())
 	if !t.IsZero() {
 		cc := c
 		c.timer = vsched.AddTimer(t.UnixNano(), "deadline "+c.Name, func() { cc.timedOut = true })
@@ -285,6 +299,7 @@ func (c *PipeConn) SetWriteDeadline(t time.Time) error {
 	c.wtimer.Cancel()
 	c.wtimer = nil
 	c.wTimedOut = false
+	c.wPast = c.ClockDeadlines && !t.IsZero() && t.Before(vclock.Now())
 	if !t.IsZero() && c.Window > 0 {
 		cc := c
 		c.wtimer = vsched.AddTimer(t.UnixNano(), "write deadline "+c.Name, func() { cc.wTimedOut = true })
